@@ -56,6 +56,7 @@ type modelVar struct {
 }
 
 type retInfo struct {
+	provs map[int]*Loc // provenance of returned map values
 	ptr  map[string]*Loc // what cells are known to point to at this return
 	at   Term
 	vals []Term
@@ -100,6 +101,7 @@ type frame struct {
 	newRefs  []Term
 	nret     int
 	tupleProvs map[ssa.Value]*Loc
+	tupleProvIdx map[ssa.Value]map[int]*Loc
 	ptrOut   map[*ssa.BasicBlock]map[string]*Loc
 }
 
@@ -114,6 +116,7 @@ type loopState struct {
 	phiPre   map[*ssa.Phi]Term // havoced value at header
 	memHead  map[string]Term
 	decPre   Term
+	mapPhis  map[*ssa.Phi]*Loc
 	rangeIdx *ssa.Phi
 	visCur   Term // the visited-keys ghost of a map range, as seen by the clause being translated
 	rng      *rangeState
@@ -422,7 +425,7 @@ func (e *enc) value(v ssa.Value) Term {
 	if p, ok := fr.prov[v]; ok {
 		if _, isMap := v.Type().Underlying().(*types.Map); isMap {
 			switch v.(type) {
-			case *ssa.MakeMap, *ssa.Parameter:
+			case *ssa.MakeMap, *ssa.Parameter, *ssa.Phi, *ssa.Extract, *ssa.Call:
 				if _, ok := fr.val[v]; ok {
 					return e.read(p)
 				}
